@@ -152,7 +152,10 @@ theorem client_tags {b b' : BState} {i : Nat} {o o' : Oracle} {pc pc' : CPc}
     simp only [hpc] at hs
     split at hs
     · cases r <;> simp only [Except.ok.injEq, Prod.mk.injEq] at hs <;> obtain ⟨rfl, rfl⟩ := hs <;>
-        (have := pc_of_set hpc'; subst this; simp [onK, shutPath, CPc.afterCas])
+        first
+        | (have := pc_of_set hpc'; subst this; simp [onK, shutPath, CPc.afterCas])
+        | (rcases mgetStart_spec b i _ _ with ⟨_, _, e⟩ | ⟨_, e⟩ <;> rw [e] at hpc' <;>
+            (have := pc_of_set hpc'; subst this; simp [onK, shutPath, CPc.afterCas]))
     · cases r with
       | putW k v w ttl =>
         simp only [] at hs
@@ -160,7 +163,7 @@ theorem client_tags {b b' : BState} {i : Nat} {o o' : Oracle} {pc pc' : CPc}
           (have := pc_of_set hpc'; subst this; simp [onK, shutPath, reqOnK, CPc.afterCas])
       | mget ks iter =>
         simp only [Except.ok.injEq, Prod.mk.injEq] at hs; obtain ⟨rfl, rfl⟩ := hs
-        rcases mgetNext_spec b i ks [] iter with ⟨out, e⟩ | ⟨k, rest, _, _, e⟩ <;> rw [e] at hpc' <;>
+        rcases mgetStart_spec b i ks iter with ⟨_, _, e⟩ | ⟨_, e⟩ <;> rw [e] at hpc' <;>
           (have := pc_of_set hpc'; subst this; simp [onK, shutPath, CPc.afterCas])
       | _ =>
         simp only [Except.ok.injEq, Prod.mk.injEq] at hs; obtain ⟨rfl, rfl⟩ := hs
@@ -1857,17 +1860,43 @@ theorem upAfter_ack {b0 b : BState} {i id hh : Nat} {uw : Option Int} (hres0 : b
 theorem mgetNext_ack {b0 b : BState} {i hh : Nat} {ks : List Nat} {acc : List (Option Nat)} {iter : Bool}
     (hres0 : b0.res = b.res) (hidle : (mgetNext b0 i ks acc iter).cl[i]? = some .idle)
     (hres : (mgetNext b0 i ks acc iter).res[i]? = some (.ack hh .pending :: b.res.getD i [])) : False := by
-  obtain ⟨pad, e⟩ := mgetNext_idle hidle
-  rw [e] at hres
+  rw [mgetNext_idle hidle] at hres
   simp only [finishCall, hres0] at hres
   have := res_set_head hres; cases this
+
+/-- … nor does its first action … -/
+theorem mgetStart_ack {b : BState} {i hh : Nat} {ks : List Nat} {iter : Bool}
+    (hidle : (mgetStart b i ks iter).cl[i]? = some .idle)
+    (hres : (mgetStart b i ks iter).res[i]? = some (.ack hh .pending :: b.res.getD i [])) : False := by
+  rcases mgetStart_spec b i ks iter with ⟨_, _, e⟩ | ⟨_, e⟩
+  · rw [e] at hres
+    have := res_set_head hres; cases this
+  · rw [e] at hidle
+    have := pc_of_set hidle; cases this
+
+/-- … nor a load of the shutdown flag -/
+theorem mgetFlagAct_ack {b : BState} {i hh : Nat} {outer : Bool} {ks : List Nat} {acc : List (Option Nat)} {iter : Bool}
+    (hidle : (mgetFlagAct b i outer ks acc iter).cl[i]? = some .idle)
+    (hres : (mgetFlagAct b i outer ks acc iter).res[i]? = some (.ack hh .pending :: b.res.getD i [])) : False := by
+  rcases mgetFlagAct_spec b i outer ks acc iter with ⟨_, e⟩ | ⟨_, _, _, _, _, e⟩ | ⟨_, _, _, _, _, e⟩ |
+    ⟨_, _, _, _, _, e⟩
+  · rw [e] at hres
+    have := res_set_head hres; cases this
+  · rw [e] at hidle
+    have := pc_of_set hidle; cases this
+  · rw [e] at hidle hres
+    exact mgetNext_ack rfl hidle hres
+  · rw [e] at hidle
+    have := pc_of_set hidle; cases this
 
 set_option hygiene false in
 macro "ack_leaf" : tactic => `(tactic| first
   | (exfalso; have := pc_of_set hidle; cases this; done)
   | (exfalso; have := res_set_head hres; cases this; done)
   | (exfalso; exact upAfter_ack rfl hidle hres)
-  | (exfalso; exact mgetNext_ack rfl hidle hres))
+  | (exfalso; exact mgetNext_ack rfl hidle hres)
+  | (exfalso; exact mgetStart_ack hidle hres)
+  | (exfalso; exact mgetFlagAct_ack hidle hres))
 
 set_option hygiene false in
 macro "ack_pos" : tactic => `(tactic| (
